@@ -41,20 +41,20 @@ func (h *Hex) UnmarshalJSON(b []byte) error {
 type Kind uint8
 
 const (
-	KInt    Kind = iota // Neg,U: value = U or -1-U
-	KBytes              // B
-	KText               // B (may be invalid UTF-8 for adversarial inputs)
-	KArray              // A
-	KMap                // M (ordered pairs)
-	KTag                // T, A[0]
-	KBool               // U = 0/1
-	KNull               //
-	KUndef              //
-	KFloat              // F = float64 bits, emitted as 8-byte float
-	KSimple             // U = simple value number
-	KRaw                // B = pre-encoded item(s), emitted verbatim
-	KFloat16            // F low 16 bits, emitted as f9 xx xx
-	KFloat32            // F low 32 bits, emitted as fa xx xx xx xx
+	KInt     Kind = iota // Neg,U: value = U or -1-U
+	KBytes               // B
+	KText                // B (may be invalid UTF-8 for adversarial inputs)
+	KArray               // A
+	KMap                 // M (ordered pairs)
+	KTag                 // T, A[0]
+	KBool                // U = 0/1
+	KNull                //
+	KUndef               //
+	KFloat               // F = float64 bits, emitted as 8-byte float
+	KSimple              // U = simple value number
+	KRaw                 // B = pre-encoded item(s), emitted verbatim
+	KFloat16             // F low 16 bits, emitted as f9 xx xx
+	KFloat32             // F low 32 bits, emitted as fa xx xx xx xx
 )
 
 // Go integer spellings (Val.Sp) used when a value is handed to the library.
@@ -69,7 +69,7 @@ const (
 	SpUint16
 	SpUint32
 	SpUint64
-	SpAlgorithm // cose.Algorithm (only meaningful for alg values)
+	SpAlgorithm  // cose.Algorithm (only meaningful for alg values)
 	NumSpellings = 10
 )
 
